@@ -11,7 +11,7 @@
 (* With Record = TRUE the behaviour is kept as a script and emitted at       *)
 (* terminal states for replay on the real extractor.                         *)
 EXTENDS Extract, Json, CSV, IOUtils
-CONSTANTS NA, NB, MaxSteps, MaxDup, MaxBad, MaxRestart, Ticks, Record, Ver
+CONSTANTS NA, NB, MaxSteps, MaxDup, MaxBad, MaxRestart, MaxPlain, Ticks, Record, Ver
 
 P == IF Ver = 1 THEN <<0, 0, 0, 0, 1, 56, 0, 0, 0, 1>> ELSE <<1, 56, 0, 0, 0, 1>>
 IdA == 2049     \* 0x0801
@@ -88,7 +88,7 @@ SendBad(id, no) ==
     /\ bads < MaxBad /\ no \in {0, Tot(id) + 1} /\ bads' = bads + 1
     /\ DoFeed(PartFrameG(id, no, tser, Tot(id), gen[id]), "bad", id, no)
     /\ UNCHANGED <<sentNo, firstSer, started, dups, plains, gen>>
-SendPlain == /\ plains < 1 /\ plains' = plains + 1
+SendPlain == /\ plains < MaxPlain /\ plains' = plains + 1
              /\ DoFeed(PlainFrame(tser), "plain", 0, 0)
              /\ UNCHANGED <<sentNo, firstSer, started, dups, bads, gen>>
 Pass(d) == /\ d \in Ticks /\ x' = Tick(x, d)
